@@ -15,7 +15,7 @@ import (
 // out, the bounded ones among them finish quickly, and the innermost one still live after 100000 post-EOF
 // reads is the loop driven by the wire count. The bare `for { ... }` loops of the buffer layer (loadMore,
 // until, next, readUint64) are not counted loops and are skipped by construction. This only chooses the
-// label of the signature; the verdict itself is the post-EOF read count.
+// label of the signature; the verdict itself is the post-EOF read count (or the CPU budget).
 
 type frame struct {
 	fn   string
@@ -23,6 +23,7 @@ type frame struct {
 	line int
 }
 
+// parseStack reads the frames (innermost first) of one goroutine from a textual traceback.
 func parseStack(stack string) []frame {
 	var out []frame
 	lines := strings.Split(stack, "\n")
@@ -83,8 +84,8 @@ func countedLoops(file string) []lineRange {
 	return out
 }
 
-func loopSite(stack string) string {
-	frames := parseStack(stack)
+// loopSite takes frames innermost first.
+func loopSite(frames []frame) string {
 	start := 0
 	for i, f := range frames {
 		if strings.HasSuffix(f.fn, "capReader).Read") {
